@@ -287,7 +287,11 @@ func GetRepositoryIndexes(ctx context.Context, repos []string, keys map[string][
 			index, err := globalIndexCache.get(ctx, repoName, repoURL, keys, arch, opts)
 			if err != nil {
 				redacted := redact(IndexURL(repoURL, arch))
-				if errors.Is(err, fs.ErrNotExist) {
+				// Only a local repository may be missing. A remote one whose index cannot be read must fail:
+				// offline, the error for a repository that was never cached wraps fs.ErrNotExist as well, and
+				// dropping it would silently resolve against fewer repositories than configured.
+				remote := strings.HasPrefix(repoURL, "https://") || strings.HasPrefix(repoURL, "http://")
+				if !remote && errors.Is(err, fs.ErrNotExist) {
 					// This can happen for local repos, just log and continue.
 					clog.WarnContextf(ctx, "getting local index %s: %v", redacted, err)
 					return nil
